@@ -26,6 +26,8 @@ type Mutant struct {
 	Note       string `json:"note"`
 	Old2       string `json:"old2,omitempty"` // optional second hunk in the same file (e.g. an import)
 	New2       string `json:"new2,omitempty"`
+	Old3       string `json:"old3,omitempty"`
+	New3       string `json:"new3,omitempty"`
 }
 
 type mutantResult struct {
@@ -102,6 +104,13 @@ func runMutantChild(o *RunOpts, id string) int {
 			return emit()
 		}
 		mutated = strings.Replace(mutated, m.Old2, m.New2, 1)
+	}
+	if m.Old3 != "" {
+		if strings.Count(mutated, m.Old3) != 1 {
+			res.Error = "third hunk context not found exactly once: skipped"
+			return emit()
+		}
+		mutated = strings.Replace(mutated, m.Old3, m.New3, 1)
 	}
 	prop := o.Property
 	if prop == "" {
